@@ -1633,7 +1633,9 @@ class NoPanic:
                         continue
                     between = {x for x in fn.reachable() if x != lb and fn.reaches(lb, x) and (x == site[1] or fn.reaches(x, site[1])) and x != site[1]}
                     ACCESS = ("index_mut", "deref_mut", "as_mut", "as_mut_slice", "get_mut", "iter_mut", "last_mut", "first_mut", "borrow_mut")
-                    if not any(fn.blocks[x].term["k"] == "call" and callee_name(fn.blocks[x].term["fn"].get("path", "")) not in ACCESS and
+                    writes_ = any(st_["k"] == "assign" and st_["dst"].get("p") and any(e_ == "deref" or (isinstance(e_, dict) and ("f" in e_ or "idx" in e_ or "cidx" in e_)) for e_ in st_["dst"]["p"])
+                                  for x in between if x not in fn.diverging() for st_ in fn.blocks[x].stmts)
+                    if not writes_ and not any(fn.blocks[x].term["k"] == "call" and callee_name(fn.blocks[x].term["fn"].get("path", "")) not in ACCESS and
                                any(str(ty).startswith("&mut") for ty in (fn.blocks[x].term.get("arg_tys") or [])) for x in between if x not in fn.diverging()):
                         return "%s() on a container whose length was just found to be >= 1 (no mutation in between)" % name
         if name.startswith("write_u") or name.startswith("write_i") or name == "write_all":
